@@ -122,6 +122,45 @@ def _b_body(d, crlf, final_nl):
     return True
 
 
+# ------------------------------------------------------------------ C20.b2 multi-byte characters across the read-buffer boundaries
+BOUNDARIES = (512, 1024, 2048, 4096, 8192, 16384, 65536)
+WIDE = ('\u00f1', '\u20ac', '\U0001d11e')          # 2, 3 and 4 bytes in UTF-8
+
+
+def ob_b2(b: int, w: int, shift: int, crlf: bool) -> bool:
+    assume(0 <= b < len(BOUNDARIES) and 0 <= w < len(WIDE) and 0 <= shift < 4)
+    return _b2_body(choose(b, len(BOUNDARIES)), choose(w, len(WIDE)), choose(shift, 4), bool(crlf))
+
+
+@native
+def _b2_body(b, w, shift, crlf):
+    """A score file whose non-ASCII lyric syllable lies across byte offset B (every byte of the character in turn sits at B):
+    whatever block size the file is read or sniffed in, load(file) is loads(text)."""
+    B, ch = BOUNDARIES[b], WIDE[w]
+    width = len(ch.encode('utf-8'))
+    if shift >= width:
+        return True
+    nl = '\r\n' if crlf else '\n'
+    head = f'!!!OTL: {{pad}}{nl}**kern\t**text{nl}*clefG2\t*{nl}4c\tla{nl}4d\t'
+    fixed = len(head.format(pad='').encode('utf-8'))
+    pad = B - shift - fixed             # the character starts `shift` bytes before B
+    if pad < 0:
+        return True
+    text = head.format(pad='x' * pad) + ch + f'\u00f3n{nl}4e\tD\u00f3{ch}{nl}*-\t*-{nl}'
+    raw = text.encode('utf-8')
+    check(raw[B - shift:B - shift + width] == ch.encode('utf-8'), 'harness: the character is not where it was meant to be')
+    with scratch() as tmp:
+        path = os.path.join(tmp, 'score.krn')
+        with open(path, 'wb') as f:
+            f.write(raw)
+        fdoc, ferrs = kp.load(path)
+        sdoc, serrs = kp.loads(text)
+        dd = diff(snap(fdoc), snap(sdoc))
+        check(dd == '' and len(ferrs) == len(serrs), lambda: f'load(file) differs from loads(text) when the {width}-byte character {ch!r} lies across byte offset {B} (starts {shift} bytes before it, crlf={crlf}): {dd[:300]}')
+        check(kp.dumps(fdoc) == kp.dumps(sdoc), 'exports of load(file) and loads(text) differ')
+    return True
+
+
 OPTSETS = ({}, {'encoding': kp.Encoding.eKern}, {'spine_types': ['**kern'], 'include': kp.BEKERN_CATEGORIES, 'encoding': kp.Encoding.bEkern},
            {'exclude': [TC.DECORATION], 'spine_ids': [0]}, {'from_measure': 1, 'to_measure': 1, 'spine_types': ['**kern']},
            {'spine_ids': []}, {'to_measure': 0}, {'include': []}, {'spine_types': [], 'encoding': kp.Encoding.eKern}, {'from_measure': 0, 'to_measure': 1})
@@ -314,6 +353,11 @@ OBLIGATIONS = [
        budget_s={'quick': 120, 'thorough': 600}, witnesses=[{'d': 0, 'crlf': True, 'final_nl': False}], min_confirmed=16,
        enumerated='document, line ending, final newline', realized_at=['open() / csv.reader in Importer.import_file (real temporary files)'],
        bounds={'quick': '5 documents (one with blank lines everywhere) x {LF, CRLF} x {final newline, none}', 'thorough': 'same'}),
+    Ob(id='C20.b2', fn=ob_b2, title='load(file) == loads(text) when a multi-byte character lies across a read-buffer boundary',
+       budget_s={'quick': 120, 'thorough': 600}, witnesses=[{'b': 1, 'w': 0, 'shift': 1, 'crlf': False}], min_confirmed=80,
+       enumerated='boundary (7), character width (2-4 bytes), byte of the character at the boundary, line ending',
+       realized_at=['open() / csv.reader in Importer.import_file (real temporary files)'],
+       bounds={'quick': 'byte offsets 512 .. 65536 x 3 characters x each of their bytes at the boundary x {LF, CRLF}', 'thorough': 'same'}),
     Ob(id='C20.c', fn=ob_c, title='dump writes exactly what dumps returns, creating 0-3 missing directory levels',
        shard_of=lambda d, o, depth, exists, as_path: o, shards={'quick': 10, 'thorough': 10}, budget_s={'quick': 150, 'thorough': 600},
        witnesses=[{'d': 0, 'o': 1, 'depth': 2, 'exists': False, 'as_path': False}], min_confirmed=200,
